@@ -472,6 +472,22 @@ class Gen:
             self.themed_edits(edits, per_block)
         if rng.random() < 0.5 and not getattr(self, "one_per_block", False):
             self.around_empty_edits(edits, per_block)
+        if self.knobs.get("entry_chain_p") and case["funcs"] and \
+                rng.random() < self.knobs["entry_chain_p"]:
+            # the entry block of a function and the block behind it are both
+            # deleted as whole blocks (the entry role moves on twice)
+            fs = [f for f in case["funcs"] if len(f["blocks"]) >= 3]
+            if fs:
+                f = rng.choice(fs)
+                byid = {b["id"]: b for b in self.all_blocks}
+                for bid in f["blocks"][:2]:
+                    b = byid[bid]
+                    n_ = len(b["items"])
+                    if n_ and not per_block.get(bid):
+                        per_block.setdefault(bid, []).append(
+                            (0, n_, len(edits), "delall"))
+                        edits.append({"op": "del", "b": bid, "i": 0,
+                                      "n": n_, "proxy": False})
         for _ in range(n * 3):
             if len(edits) >= n:
                 break
